@@ -2,6 +2,7 @@ SPECIFICATION Spec
 CONSTANTS
   ClosesPipeOnBuildError = FALSE
   ClosesFilesOnParamsError = TRUE
+  CopyMarksEndSeen = FALSE
   CancelsBeforeClose = FALSE
   ClosesFilesOnFieldError = TRUE
   FileLen = 2
